@@ -169,10 +169,11 @@ func replay(t *testing.T, rp map[string]interface{}) {
 func TestC06Random(t *testing.T) {
 	sec := stats.Sec("random", ruleRandom)
 	maxOps := stats.EnvInt("C06_MAXOPS", 30)
-	ets := []string{"A", "B"}
-	pids := []string{"p", "q", "r"}
-	nodeIDs := []string{"f", "g", "h", "s", "u"}
-	typeOf := map[string]int{"f": fmtT, "g": int(eventlogger.NodeTypeFormatterFilter), "h": filtT, "s": sinkT, "u": sinkT}
+	// families of names that are distinct strings but collide under careless normalisation
+	ets := []string{"A", "B", "\t", "A "}
+	pids := []string{"p", "q", "r", " ", "p ", "P"}
+	nodeIDs := []string{"f", "g", "h", "s", "u", " ", "s ", "F"}
+	typeOf := map[string]int{"f": fmtT, "g": int(eventlogger.NodeTypeFormatterFilter), "h": filtT, "s": sinkT, "u": sinkT, " ": filtT, "s ": sinkT, "F": fmtT}
 	opGen := rapid.Custom(func(t *rapid.T) model.Op {
 		switch rapid.SampledFrom([]int{0, 0, 1, 1, 1, 1, 2, 3, 3, 4, 4}).Draw(t, "k") {
 		case 0:
@@ -181,8 +182,8 @@ func TestC06Random(t *testing.T) {
 				Pol: rapid.SampledFrom([]int{0, 0, 0, 1, 2}).Draw(t, "pol"), Shape: rapid.SampledFrom([]int{0, 0, 0, 1, 2, 3, 4, 5}).Draw(t, "shape"),
 				Reuse: rapid.IntRange(0, 6).Draw(t, "reuse") == 0}
 		case 1:
-			inner := rapid.SliceOfN(rapid.SampledFrom([]string{"h", "h", "f", "g", "s"}), 0, 2).Draw(t, "inner")
-			ids := append(inner, rapid.SampledFrom([]string{"f", "g", "f", "g", "h"}).Draw(t, "fmt"), rapid.SampledFrom([]string{"s", "u"}).Draw(t, "sink"))
+			inner := rapid.SliceOfN(rapid.SampledFrom([]string{"h", "h", "f", "g", "s", " "}), 0, 2).Draw(t, "inner")
+			ids := append(inner, rapid.SampledFrom([]string{"f", "g", "f", "g", "h", "F"}).Draw(t, "fmt"), rapid.SampledFrom([]string{"s", "u", "s "}).Draw(t, "sink"))
 			return model.Op{K: "regpipe", ET: rapid.SampledFrom(ets).Draw(t, "et"), P: rapid.SampledFrom(pids).Draw(t, "p"), IDs: ids,
 				Pol: rapid.SampledFrom([]int{0, 0, 0, 0, 1, 2}).Draw(t, "ppol"), Dress: rapid.SampledFrom([]int{0, 0, 0, 1, 2, 3}).Draw(t, "pdress")}
 		case 2:
